@@ -104,12 +104,14 @@ class Ctx:
         """Exhaustive check of a module. A violation here means the *spec* is broken -> Infra."""
         t = time.time()
         rc, out = self._tlc(module, cfg, timeout=timeout, workers=workers, env=env, heap=heap)
-        if rc != 0 and not re.search(r"is violated|violated\.|Deadlock reached|Error: ", out):
-            # the JVM died without a verdict (seen once: rc=255 and no TLC error): keep its output, try once more
+        verdict = r"is violated|properties were violated|Deadlock reached|is false|Parsing or semantic analysis failed|Semantic error|was violated"
+        if rc != 0 and not re.search(verdict, out):
+            # the JVM ended without a verdict (seen twice: rc=255 right after another TLC run): keep its output, try once more
             os.makedirs(os.path.join(VERIF, "out"), exist_ok=True)
             with open(os.path.join(VERIF, "out", "tlc-abnormal-%s-%s.log" % (self.pid, cfg)), "w") as f:
-                f.write(out[-20000:])
+                f.write(out[-40000:])
             self.notes.append("TLC exited %s without a verdict on %s/%s; re-run once" % (rc, module, cfg))
+            time.sleep(1)
             rc, out = self._tlc(module, cfg, timeout=timeout, workers=workers, env=env, heap=heap)
         g, d = self._counts(out)
         ok = rc == 0 and "Model checking completed. No error has been found" in out
